@@ -47,6 +47,7 @@ func rx1Matrix(cfg bandCfg) string {
 }
 
 func runC12(c *core.Ctx) {
+	bandFingerprints(c, "band-tables")
 	// first thing in a fresh process: the RX1 answers of every configuration, created in a rotated order
 	var firstMatrix map[string]string
 	if c.Mine("creation-order", int64(c.Batch)) {
